@@ -33,8 +33,26 @@ Case kinds (round 3 additions are marked +):
             + partly inbred parents (statistics over the heterozygous markers), + protocols with one selfing
             generation (copy of the hybrid read from the founder labels);
             statistical support (fixed seeds, corpus only): empirical segregation / pairwise
-            recombination / joint frequencies of 2*10^4 (quick) or 2*10^5 (thorough) gametes against the
+            recombination / joint frequencies of 2*10^4 (quick) or 1.5*10^5 (thorough) gametes against the
             exact probabilities of the Lean model, Bernstein budget (>= 7.5 sigma + 19 counts).
+
+Round 4 additions (++):
+++ statistical-support
+            dense marker panels (120-200 markers, mean crossover probability < 2 %, 1/2 only at the chromosome starts;
+            explicit vectors and Haldane / Kosambi maps; statistics at `watch`ed markers); any number of selfing
+            generations against `pairProbN` (one chromosome copy) and `crossProbN` (the two copies of one plant),
+            theorem n_generation_recombination_law; the whole chain map -> interp_xoprob -> mate(); identical gametes at
+            fixed lags (1 .. 65536 rows apart: recycled chunks of random numbers); number of gametes actually simulated
+            by from_gmod; random statistical cases inside generate() (they decide when a changed tree consumes its
+            random numbers in another pattern than the model);
+++ xoprob   the optional window [ast, asp) of gdist1g / gdist1p; gaps of 40 - 2000 Morgans; the chromosome-start part of
+            the Spec is decided in Lean (`c02.spec_starts`, theorems spec_starts_sound / spec_starts_iff);
+++ protocol several chromosomes (single-marker ones included) whose starts carry 1/2 or a hand-assigned value; ANOTHER
+            matrix object with the same marker count at the second mate() call; no two draw matrices of one mate() (or of
+            one from_gmod) may hold the same random numbers;
+++ big      dense panels (probabilities 2^-8 .. 2^-10, 1/2 every 25-64 markers);
+   the deterministic Spec of a scripted / embv / protocol case applies only when the draws were requested in the modelled
+   pattern (otherwise the case is broken correspondence and the statistical cases decide).
 """
 import contextlib
 import json
@@ -53,6 +71,9 @@ PROTOS = ["SelfCross", "TwoWayCross", "TwoWayDHCross", "ThreeWayCross", "ThreeWa
           "FourWayCross", "FourWayDHCross"]
 NPARENT = {"SelfCross": 1, "TwoWayCross": 2, "TwoWayDHCross": 2, "ThreeWayCross": 3,
            "ThreeWayDHCross": 3, "FourWayCross": 4, "FourWayDHCross": 4}
+# lags at which identical gametes are counted (sizes of typical internal buffers / chunks included)
+LAGS = [1, 2, 3, 4, 5, 7, 8, 10, 16, 20, 32, 40, 50, 64, 100, 128, 200, 256, 500, 512, 1000, 1024, 2048, 4096, 8192,
+        16384, 32768, 65536]
 # false-alarm bound per statistic of the statistical support run
 DELTA = 1e-12
 LOGD = math.log(2.0 / DELTA)
@@ -92,16 +113,58 @@ def _gen_classes():
                 len(m), len(m[0]) if m else 0) for m in script]
             self.log = []
             self.handed = []
+            # a scripted matrix may be fetched whole, or in consecutive blocks of rows (gametes) or of columns
+            # (markers): the value meant for (gamete i, marker j) still reaches that cell
+            self.cur, self.r0, self.c0, self.mode = None, 0, 0, None
+            self.served_ok = True
+
+        def _serve(self, shape):
+            if len(shape) != 2:
+                return None
+            r, c = shape
+            if self.cur is None:
+                if not self.script:
+                    return None
+                M = self.script[0]
+                R, C = M.shape
+                if (r, c) == (R, C):
+                    self.script.pop(0)
+                    return M.copy()
+                if c == C and 0 < r < R:
+                    self.mode = "rows"
+                elif r == R and 0 < c < C:
+                    self.mode = "cols"
+                else:
+                    return None
+                self.cur, self.r0, self.c0 = self.script.pop(0), 0, 0
+            R, C = self.cur.shape
+            if self.mode == "rows" and c == C and 0 < r <= R - self.r0:
+                out = self.cur[self.r0:self.r0 + r].copy()
+                self.r0 += r
+                if self.r0 == R:
+                    self.cur = None
+                return out
+            if self.mode == "cols" and r == R and 0 < c <= C - self.c0:
+                out = self.cur[:, self.c0:self.c0 + c].copy()
+                self.c0 += c
+                if self.c0 == C:
+                    self.cur = None
+                return out
+            return None
 
         def uniform(self, low=0.0, high=1.0, size=None):
             shape = tuple(int(s) for s in (size if isinstance(size, (tuple, list)) else
                                            (() if size is None else (size,))))
             self.log.append([canon.enc(low), canon.enc(high), list(shape)])
-            nxt = self.script.pop(0) if self.script else numpy.zeros(shape)
-            if int(numpy.prod(shape)) == nxt.size:
-                out = nxt.reshape(shape).copy()
-            else:
-                out = numpy.resize(nxt if nxt.size else numpy.zeros(1), shape)
+            out = self._serve(shape)
+            if out is None:
+                self.served_ok = False
+                self.cur = None
+                nxt = self.script.pop(0) if self.script else numpy.zeros(shape)
+                if int(numpy.prod(shape)) == nxt.size:
+                    out = nxt.reshape(shape).copy()
+                else:
+                    out = numpy.resize(nxt if nxt.size else numpy.zeros(1), shape)
             self.handed.append(out.copy())
             return out
 
@@ -330,7 +393,7 @@ class C02(Prop):
     PID = "C02"
     MODULE = "PybropsModel.Props.C02"
     N_QUICK = 500
-    N_THOROUGH = 6000
+    N_THOROUGH = 4500
     RULE = ("scripted: 1-6 taxa x 0-12 markers, allele code unique per (taxon, phase, marker) EXCEPT at the homozygous markers "
             "of partly inbred parents (homozygous starts / runs between heterozygous markers / all but two markers / fully "
             "inbred), xoprob from {0,1/16,1/8,1/4,3/8,1/2,3/4,1} and {2^-40,2^-27,2^-17,1/2+-2^-30,1-2^-20}, draws with exact ties "
@@ -351,6 +414,12 @@ class C02(Prop):
             "matrix, shuffled markers, matrix already carrying probabilities of another map, ungrouped matrix rejected); "
             "stat (fixed seeds): all 6 functions + 7 protocols, explicit vectors and Haldane/Kosambi maps, partly inbred parents, "
             "protocols with one selfing generation, two-generation pedigrees against pairProb2. "
+            "Round 4: dense panels (120-200 markers, mean xoprob < 2 %) as explicit vectors and Haldane/Kosambi maps for all six "
+            "functions, protocols and from_gmod with statistics at watched markers; selfing depth 1-4 against pairProbN / crossProbN "
+            "(one copy / the two copies of a plant); map -> interp_xoprob -> mate() chains; identical-gamete counts at lags 1..65536; "
+            "random statistical cases (1.2 % of the generated cases); gdist1g / gdist1p windows [ast, asp); gaps of 40-2000 Morgans; "
+            "protocols on 2-3 chromosomes with 1/2 or hand-assigned values at the starts; a second matrix object at the second "
+            "mate() call; draw matrices of one mate() / from_gmod pairwise different. "
             "Non-trivial = scripted/big/protocol/embv case with >= 1 crossover, >= 2 gametes with different masks and >= 1 observable "
             "marker, xoprob case with >= 2 chromosomes, any stat case")
     TRUSTED = ["numpy Generator/RandomState.uniform(0,1,shape) delivers independent draws, each uniform on the "
@@ -367,6 +436,9 @@ class C02(Prop):
                    "deterministic protocol Spec (every progeny cell = model on the recorded draws) is applied when the recorded "
                    "call pattern is the modelled one; otherwise the case only counts as broken correspondence and the "
                    "statistical cases decide",
+                   "the deterministic Spec of a scripted / embv / protocol case is applied when the random draws were "
+                   "requested in the modelled pattern (one (rows, nvrnt) matrix per meiosis); a tree that consumes randomness "
+                   "otherwise is judged by the statistical cases (fixed and generated seeds)",
                    "statistical cases: fixed seeds, budget sqrt(2 L v) + 2L/3 with L = ln(2e12) (Bernstein), i.e. "
                    ">= 7.5 sigma; they support the trusted generator contract, they are not what proves C02"]
 
@@ -425,7 +497,56 @@ class C02(Prop):
         out.append({"kind": "embv", "gen": "Generator", "seed": 5, "ntaxa": 3,
                     "xoprob": [h, "1/8", "1/4", h, "3/8"], "nprogeny": [2, 3, 1], "nrep": 2})
         out += self._corpus_round3()
+        out += self._corpus_round4()
         out += self._stat_cases(20000)
+        return out
+
+    def _corpus_round4(self):
+        """one case per class of inputs added in round 4"""
+        import random
+        h, q = "1/2", "1/4"
+        chr8 = [1, 1, 1, 2, 2, 3, 3, 3]
+        pos8 = [0, "1/8", h, 0, q, q, h, 1]
+        out = [
+            # the optional window [ast, asp) of gdist1g / gdist1p: opening at a chromosome start, inside a chromosome,
+            # on the last marker of a chromosome; open-ended
+            {"kind": "xoprob", "fn": "haldane", "via": "rprob1g", "chr": chr8, "pos": pos8, "slice": [3, 8]},
+            {"kind": "xoprob", "fn": "kosambi", "via": "rprob1g", "chr": chr8, "pos": pos8, "slice": [1, 7]},
+            {"kind": "xoprob", "fn": "haldane", "via": "extended", "chr": chr8, "pos": pos8, "slice": [2, None]},
+            {"kind": "xoprob", "fn": "kosambi", "via": "extended", "chr": [9, 2, 2, 4, 1], "pos": [h, 0, 0, 2, 1],
+             "slice": [None, 4]},
+            {"kind": "xoprob", "fn": "haldane", "via": "rprob1p", "chr": chr8, "pos": pos8, "slice": [4, 7]},
+            {"kind": "xoprob", "fn": "kosambi", "via": "rprob1p", "chr": chr8, "pos": pos8, "slice": [1, 6]},
+            # gaps of many Morgans (the map function saturates at 1/2; no overflow on the way) next to tiny ones
+            {"kind": "xoprob", "fn": "kosambi", "via": "rprob1g", "chr": [1, 1, 1, 1, 2, 2],
+             "pos": canon.enc([0, 200, 2200, 2200 + Fraction(1, 2 ** 20), 0, 40])},
+            {"kind": "xoprob", "fn": "haldane", "via": "extended", "chr": [1, 1, 1, 2, 2],
+             "pos": [0, 400, 2400, 0, "1/8"]},
+            {"kind": "xoprob", "fn": "kosambi", "via": "interp", "chr": [1, 1, 1, 2, 2, 2], "pos": [0, 180, 185, 0, 1, 2001]},
+            {"kind": "xoprob", "fn": "haldane", "via": "interp-ext", "chr": [1, 1, 2, 2], "pos": [0, 1000, 5, 45]},
+        ]
+        rb = random.Random(4242)
+        out.append(self._big_case(rb, "dense", "meiosis", m=130, nsel=3, ntaxa=2, dense=True))
+        out.append(self._big_case(rb, "mat", "mate", m=260, nsel=3, ntaxa=2, dense=True))
+        out.append(self._big_case(rb, "dense", "dh", m=60, nsel=3, ntaxa=2, dense=True))
+        out.append(self._big_case(rb, "mat", "meiosis", m=520, nsel=3, ntaxa=1, dense=True))
+        # protocols on several chromosomes whose starts carry 1/2 or a hand-assigned value; another matrix object
+        # (same marker count, other probabilities) at the second call of one protocol object
+        for i, p in enumerate(PROTOS):
+            np_ = NPARENT[p]
+            xc = [list(range(np_))] if np_ < 4 else [[0, 1, 2, 3]]
+            out.append({"kind": "protocol", "proto": p, "gen": "Generator" if i % 2 else "RandomState", "seed": 401 + i,
+                        "ntaxa": 4, "xconfig": xc, "nmating": 2, "nprogeny": 2, "nself": i % 3,
+                        "chr": [1, 1, 2, 2, 2, 5], "xoprob": [h, q, "1/8" if i % 2 else h, q, "3/8", q if i % 3 else h]})
+            out.append({"kind": "protocol", "proto": p, "gen": "Generator", "seed": 431 + i, "ntaxa": 4, "xconfig": xc,
+                        "nmating": 1, "nprogeny": 3, "nself": (i + 1) % 2, "ncall": 2, "xoprob": [h, q, q, h],
+                        "xoprob2": [q, h, "3/4", "1/8"], "edit_mode": "newobj"})
+            # a second breeding cycle: the progeny of the first call (2 crosses x 2 matings x 1 progeny) are the parents
+            out.append({"kind": "protocol", "proto": p, "gen": "RandomState" if i % 2 else "Generator", "seed": 461 + i,
+                        "ntaxa": 5, "xconfig": [list(range(np_)), [4 - t for t in range(np_)]] if np_ < 4 else
+                        [[0, 1, 2, 3], [4, 3, 1, 0]], "nmating": 2, "nprogeny": 1, "nself": i % 2, "ncall": 2,
+                        "chain": [list(range(np_)), [3 - t for t in range(np_)]], "xoprob": [h, q, "3/8", h, q],
+                        "forder": bool(i % 2)})
         return out
 
     def _corpus_round3(self):
@@ -591,12 +712,71 @@ class C02(Prop):
             seed += 1
             out.append({"kind": "statistical-support", "target": "proto:" + p, "nself": ns, "gen2": True,
                         "gen": "Generator", "seed": seed, "n": max(n // 4, 3000), "xoprob": canon.enc(xo)})
+        out += self._stat_cases_round4(n)
+        return out
+
+    def _stat_cases_round4(self, n):
+        h = Fraction(1, 2)
+        v1 = [h, Fraction(1, 10), Fraction(1, 5), h, Fraction(1, 20), Fraction(3, 10), h, Fraction(1, 4)]
+        v3 = [Fraction(1, 5), Fraction(1, 10), Fraction(3, 10)]
+        v4 = [h, Fraction(1, 10), Fraction(3, 10)]
+        out = []
+        seed = 9200
+        # any number of selfing generations: one chromosome copy against `pairProbN`, the two copies of one plant
+        # against `crossProbN` (theorem n_generation_recombination_law); ngen = meioses between the labelled plant
+        # and the observed copy
+        for p, ns, ng, xo, gen in [("SelfCross", 2, 3, v4, "Generator"), ("TwoWayCross", 3, 3, v1, "RandomState"),
+                                   ("TwoWayDHCross", 2, 3, v3, "Generator"), ("TwoWayCross", 1, 1, v4, "Generator"),
+                                   ("SelfCross", 1, 2, v1, "RandomState"), ("TwoWayCross", 4, 4, v3, "Generator")]:
+            seed += 1
+            out.append({"kind": "statistical-support", "target": "proto:" + p, "nself": ns, "ngen": ng, "gen": gen,
+                        "seed": seed, "n": max(n // 4, 3000), "xoprob": canon.enc(xo)})
+        # dense marker panels: many markers, mean crossover probability below 1-2 % (1/2 only at the chromosome
+        # starts); statistics at the chromosome starts, their neighbours and a few markers inside
+        seed = 9300
+        d1 = {"nchr": 3, "clen": 40, "p": "1/256"}
+        w1 = [0, 1, 20, 39, 40, 41, 79, 80, 100, 119]
+        d2 = {"nchr": 4, "clen": 30, "p": "1/512"}
+        w2 = [0, 1, 29, 30, 31, 60, 75, 90, 119]
+        m1 = {"fn": "haldane", "nchr": 4, "clen": 50, "step": "1/200"}
+        wm1 = [0, 1, 25, 49, 50, 51, 100, 125, 150, 199]
+        m2 = {"fn": "kosambi", "nchr": 3, "clen": 60, "step": "1/256"}
+        wm2 = [0, 1, 59, 60, 61, 90, 120, 150, 179]
+        for tgt, key, lay, w in [("dense_meiosis", "dense", d1, w1), ("mat_meiosis", "dense", d2, w2),
+                                 ("dense_dh", "map", m1, wm1), ("mat_mate", "map", m2, wm2),
+                                 ("dense_cross", "dense", d2, w2), ("embv", "dense", d1, w1),
+                                 ("proto:TwoWayDHCross", "map", m1, wm1), ("proto:SelfCross", "dense", d1, w1)]:
+            seed += 1
+            out.append({"kind": "statistical-support", "target": tgt, "gen": "Generator" if seed % 2 else "RandomState",
+                        "seed": seed, "n": max(n // 2, 4000), key: lay, "watch": w})
+        # panels longer than typical internal block sizes (1024 .. 8192 markers): the copy in use must be carried
+        # across every block boundary (statistics right before / after the boundaries; fixed sample size)
+        seed = 9350
+        long_ = {"nchr": 1, "clen": 8200, "p": "1/4096"}
+        wl = [0, 1023, 1024, 2048, 4096, 4097, 8191, 8192, 8193]
+        for tgt, nn in [("mat_meiosis", 1500), ("dense_meiosis", 1500)]:
+            seed += 1
+            out.append({"kind": "statistical-support", "target": tgt, "gen": "Generator", "seed": seed, "n": nn,
+                        "nfix": True, "dense": long_, "watch": wl})
+        # the whole chain map -> interp_xoprob -> mate(): nothing assigned by hand
+        seed = 9400
+        mp1 = {"fn": "haldane", "chr": [1, 1, 1, 1, 2, 2, 2, 3, 3],
+               "pos": ["0", "1/16", "1/4", "1/2", "0", "1/8", "3/8", "1/4", "5/4"]}
+        mp2 = {"fn": "kosambi", "chr": [1, 1, 1, 2, 2, 2], "pos": ["0", "1/8", "1/4", "0", "1/16", "1/2"]}
+        for p, mp, via, ns in [("TwoWayDHCross", mp2, "standard", 0), ("ThreeWayCross", mp2, "extended", 0),
+                               ("SelfCross", mp1, "extended", 0), ("FourWayDHCross", mp1, "standard", 0)]:
+            seed += 1
+            out.append({"kind": "statistical-support", "target": "proto:" + p, "gen": "Generator", "seed": seed,
+                        "n": max(n // 2, 4000), "map": mp, "pipeline": via})
+        seed += 1
+        out.append({"kind": "statistical-support", "target": "proto:TwoWayCross", "gen": "Generator", "seed": seed,
+                    "n": max(n // 2, 4000), "map": dict(m2), "pipeline": "standard", "watch": wm2})
         return out
 
     def exhaustive(self, tier):
         if tier == "thorough":
-            # the same statistical cases at ten times the sample size (other seeds)
-            big = self._stat_cases(200000)
+            # the same statistical cases at 7.5 times the sample size (other seeds)
+            big = [c for c in self._stat_cases(150000) if not c.get("nfix")]
             for c in big:
                 c["seed"] += 500
             return big
@@ -615,9 +795,66 @@ class C02(Prop):
                 out.append(self._gen_embv(rng))
             elif r < 0.84:
                 out.append(self._gen_big(rng, tier))
+            elif r < 0.852:
+                out.append(self._gen_stat(rng, tier))
             else:
                 out.append(self._gen_xoprob(rng))
         return out
+
+    def _gen_stat(self, rng, tier):
+        """a statistical case with random target, layout and seed (the corpus holds the fixed ones): what decides
+        when a changed tree consumes its random numbers in another pattern than the model"""
+        n = 4000 if tier == "quick" else 20000
+        tgt = rng.choice(["mat_meiosis", "dense_meiosis", "mat_dh", "dense_dh", "mat_mate", "dense_cross", "embv"]
+                         + ["proto:" + p for p in PROTOS])
+        case = {"kind": "statistical-support", "target": tgt, "gen": rng.choice(["Generator", "RandomState"]),
+                "seed": rng.randrange(1 << 30), "n": n}
+        c = rng.random()
+        if c < 0.4:
+            m = rng.choice([3, 4, 5, 6, 8])
+            xo = [Fraction(rng.choice([0, 1, 2, 3, 4, 5, 6, 8, 10, 10, 10, 15, 20]), 20) for _ in range(m)]
+            if rng.random() < 0.7:
+                xo[0] = Fraction(1, 2)
+            case["xoprob"] = canon.enc(xo)
+        elif c < 0.7:
+            nchr, clen = rng.choice([2, 3, 4]), rng.choice([25, 40, 60])
+            if rng.random() < 0.5:
+                case["dense"] = {"nchr": nchr, "clen": clen, "p": rng.choice(["1/256", "1/512", "1/1024"])}
+            else:
+                case["map"] = {"fn": rng.choice(["haldane", "kosambi"]), "nchr": nchr, "clen": clen,
+                               "step": rng.choice(["1/200", "1/256", "1/400"])}
+            m = nchr * clen
+            w = {0, 1, m - 1}
+            for ch in range(1, nchr):
+                w |= {ch * clen - 1, ch * clen, ch * clen + 1}
+            w |= set(rng.sample(range(m), 3))
+            case["watch"] = sorted(w)
+        else:
+            nchr = rng.choice([2, 3])
+            chr_, pos = [], []
+            for ch in range(nchr):
+                g = Fraction(0)
+                for _ in range(rng.choice([2, 3, 4])):
+                    chr_.append(ch + 1)
+                    pos.append(g)
+                    g += Fraction(rng.choice([1, 2, 4, 8, 16]), 32)
+            case["map"] = {"fn": rng.choice(["haldane", "kosambi"]), "chr": chr_, "pos": [str(v) for v in pos]}
+        if tgt.startswith("proto:"):
+            if "map" in case and rng.random() < 0.5:
+                case["pipeline"] = rng.choice(["standard", "extended"])
+            p = tgt[6:]
+            if p in ("SelfCross", "TwoWayCross", "TwoWayDHCross") and rng.random() < 0.4:
+                ns = rng.choice([1, 2, 3])
+                case["nself"] = ns
+                case["ngen"] = ns if p == "TwoWayCross" else ns + 1
+                case["n"] = max(n // 2, 3000)
+            elif p in ("TwoWayCross", "ThreeWayCross", "FourWayCross") and rng.random() < 0.3:
+                case["nself"] = 1
+                case["n"] = max(n // 2, 3000)
+        elif "map" not in case and rng.random() < 0.3:
+            m = len(case["xoprob"]) if "xoprob" in case else case["dense"]["nchr"] * case["dense"]["clen"]
+            case["homo"] = sorted(rng.sample(range(m), rng.choice([1, 2]) if m < 20 else 10))
+        return case
 
     def _gen_scripted(self, rng):
         ntaxa = rng.choice([1, 1, 2, 3, 4, 6])
@@ -682,6 +919,8 @@ class C02(Prop):
         if c < 0.15:
             return self._big_case(rng, impl, fn, m=rng.choice([200, 420, 1030]) if tier == "quick" else
                                   rng.choice([1030, 4100]), nsel=2, ntaxa=2, many=True)
+        if c < 0.35:
+            return self._big_case(rng, impl, fn, m=rng.choice([60, 130, 260, 520]), nsel=3, ntaxa=2, dense=True)
         if c < 0.5:
             m = rng.choice([1030, 2050, 4100, 8200]) if tier == "quick" else rng.choice([4100, 8200, 16400, 33000])
             return self._big_case(rng, impl, fn, m=m, nsel=2, ntaxa=2)
@@ -691,7 +930,7 @@ class C02(Prop):
         return self._big_case(rng, impl, fn, m=3, nsel=6, ntaxa=rng.choice([130, 260]))
 
     @staticmethod
-    def _big_case(rng, impl, fn, m, nsel, ntaxa, seed=None, many=False):
+    def _big_case(rng, impl, fn, m, nsel, ntaxa, seed=None, many=False, dense=False):
         nhit = lambda: rng.choice([1, 2, 3, 5])
         def hits():
             rows = []
@@ -713,6 +952,15 @@ class C02(Prop):
                 "pat": canon.enc([rng.choice([Fraction(1, 4), Fraction(1, 8), Fraction(1, 16), Fraction(1, 2)])
                                   for _ in range(rng.choice([3, 5, 7]))]),
                 "hits": hits(), "homo_mod": rng.choice([0, 0, 3])}
+        if dense:
+            # mean crossover probability well below 1 %: tiny dyadic probabilities, 1/2 every `chrlen` markers
+            case["pat"] = canon.enc([rng.choice([Fraction(1, 2 ** 8), Fraction(1, 2 ** 9), Fraction(1, 2 ** 10)])
+                                     for _ in range(3)])
+            case["chrlen"] = rng.choice([25, 40, 64])
+            case["homo_mod"] = 0
+            # a hit AT a later chromosome start in gamete 1 (a start that never switches the copy shows up)
+            if nsel > 1 and m > case["chrlen"]:
+                case["hits"][1] = sorted(set(case["hits"][1]) | {case["chrlen"]})
         if fn == "mate":
             case["mhits"] = hits()
             case["msel"] = [rng.randrange(ntaxa) for _ in range(nsel)]
@@ -740,11 +988,35 @@ class C02(Prop):
                 "nprogeny": nprogeny, "nself": rng.choice([0, 0, 1, 1, 2, 3]), "xoprob": canon.enc(xo)}
         if rng.random() < 0.3:
             case["homo"] = _gen_homo(rng, ntaxa, m)
+        if m >= 3 and rng.random() < 0.4:
+            # several chromosomes (single-marker ones included); the stored probability at a chromosome start is
+            # 1/2 (as a map would assign it) or any other value (assigned by hand): the protocol must use what is stored
+            cuts = sorted(rng.sample(range(1, m), rng.choice([1, 1, 2]) if m > 3 else 1))
+            lab, chr_ = 1, []
+            for j in range(m):
+                if j in cuts:
+                    lab += rng.choice([1, 1, 3])
+                chr_.append(lab)
+            case["chr"] = chr_
+            xo = [Fraction(v) for v in canon.dec(case["xoprob"])]
+            for j in cuts:
+                if rng.random() < 0.5:
+                    xo[j] = Fraction(1, 2)
+            case["xoprob"] = canon.enc(xo)
+        if rng.random() < 0.15:
+            case["forder"] = True                   # the genotype array handed to the matrix is Fortran-ordered
+        nm_a = [nmating] * ncross if isinstance(nmating, int) else nmating
+        np_a = [nprogeny] * ncross if isinstance(nprogeny, int) else nprogeny
+        ntot = sum(a * b for a, b in zip(nm_a, np_a))
         if rng.random() < 0.2:
             case["ncall"] = 2
-            if rng.random() < 0.7:
+            c3 = rng.random()
+            if c3 < 0.2 and ntot >= np_:
+                # a second breeding cycle on the same protocol object: the progeny of the first call are mated
+                case["chain"] = [rng.sample(range(ntot), np_) for _ in range(rng.choice([1, 2]))]
+            elif c3 < 0.75:
                 case["xoprob2"] = canon.enc(_xo_vector(rng, m))
-                case["edit_mode"] = rng.choice(["assign", "inplace"])
+                case["edit_mode"] = rng.choice(["assign", "inplace", "newobj"])
         elif rng.random() < 0.35:
             # scripted draws through the whole protocol: ties, one ulp either side, tolerance-range values,
             # probabilities of 2^-27 .. 1/2 +- 2^-30
@@ -789,8 +1061,11 @@ class C02(Prop):
                 chr_.append(c)
                 pos.append(g)
                 # a spline needs strictly increasing knots
-                if rng.random() < 0.15:
+                c2 = rng.random()
+                if c2 < 0.15:
                     g += Fraction(1, 2 ** 20) if spline else rng.choice([Fraction(1, 2 ** 27), Fraction(1, 2 ** 20)])
+                elif c2 < 0.19:
+                    g += rng.choice([40, 200, 2000])        # a gap of many Morgans: the map function saturates at 1/2
                 else:
                     g += Fraction(rng.choice(steps), 32)
         case = {"kind": "xoprob", "fn": rng.choice(["haldane", "haldane", "kosambi"]), "via": via,
@@ -801,6 +1076,12 @@ class C02(Prop):
             case["perm"] = perm                             # markers presented in this order; group_vrnt sorts
         if via == "interp" and rng.random() < 0.1:
             case["ungrouped"] = True                        # interp_xoprob must reject a matrix that is not grouped
+        elif via in ("rprob1g", "extended", "rprob1p") and len(chr_) >= 3 and rng.random() < 0.25:
+            # the optional array window of gdist1g / gdist1p: distances of markers [ast, asp) only
+            ast = rng.randrange(0, len(chr_) - 1)
+            asp = rng.randrange(ast + 1, len(chr_) + 1)
+            case["slice"] = [rng.choice([ast, ast, None]) if ast == 0 else ast, rng.choice([asp, asp, None]) if
+                             asp == len(chr_) else asp]
         elif rng.random() < 0.3:
             case["prime"] = True                            # the same objects were queried / filled before
         return case
@@ -820,21 +1101,45 @@ class C02(Prop):
     def _ckey(case):
         return json.dumps({k: v for k, v in case.items() if not k.startswith("_")}, sort_keys=True, default=str)
 
+    # Second economy: the statistical cases are the expensive ones.  While a mutant is active they are only run as
+    # long as no deterministic case (scripted / big / protocol / embv / xoprob: fixed inputs, fixed draws) has
+    # produced an observation that differs from the one recorded on the unmutated code — such a case already fails
+    # its exact comparison with the model.  Again this can only lose kills.
+    _obs_digest = {}
+    _scope_hit = False
+
+    @staticmethod
+    def _digest(obs):
+        import hashlib
+        return hashlib.md5(json.dumps(obs, sort_keys=True, default=str).encode()).hexdigest()
+
     def run_impl(self, case):
-        if self._scope is not None and not self._scope(case):
+        k = self._k(case)
+        if self._scope is not None:
             key = self._ckey(case)
-            if key in self._verdicts:
+            if key in self._verdicts and (not self._scope(case) or (k == "stat" and self._scope_hit)):
                 return {"__unreached__": key}
-        return getattr(self, "_impl_" + self._k(case))(case)
+            obs = getattr(self, "_impl_" + k)(case)
+            if k != "stat" and self._obs_digest.get(key) not in (None, self._digest(obs)):
+                self._scope_hit = True
+            return obs
+        obs = getattr(self, "_impl_" + k)(case)
+        if k != "stat":
+            if len(self._obs_digest) > 20000:
+                self._obs_digest.clear()
+            self._obs_digest[self._ckey(case)] = self._digest(obs)
+        return obs
 
     @contextlib.contextmanager
     def _scoped(self, pred, ctx):
         self._scope = pred
+        self._scope_hit = False
         try:
             with ctx:
                 yield
         finally:
             self._scope = None
+            self._scope_hit = False
 
     @staticmethod
     def _fn(impl, fn):
@@ -919,6 +1224,10 @@ class C02(Prop):
         obs = {"out": canon.enc(outs[0]), "outs": [canon.enc(o) for o in outs], "shape": list(outs[0].shape),
                "calls": g.log,
                "inputs_untouched": all(a.shape == b.shape and bool((a == b).all()) for a, b in zip(snap, now))}
+        if hasattr(g, "served_ok"):
+            # every request was a whole scripted matrix or a consecutive block of its rows / columns, and every
+            # scripted value was fetched
+            obs["served_in_blocks"] = bool(g.served_ok and not g.script and g.cur is None)
         if hasattr(g, "draws"):
             got = [Fraction(float(v)) for d in g.draws for v in numpy.ravel(d)]
             # the crafted state emits exactly the scripted values, in order, when the code draws what the model
@@ -940,6 +1249,9 @@ class C02(Prop):
         xo = [pat[j % len(pat)] for j in range(m)]
         if m:
             xo[0] = Fraction(1, 2)
+        if case.get("chrlen"):
+            for j in range(0, m, case["chrlen"]):
+                xo[j] = Fraction(1, 2)           # a dense panel: 1/2 only at the chromosome starts
         hm = case.get("homo_mod", 0)
         homo = [[j for j in range(m) if j % hm != 0] for _ in range(ntaxa)] if hm else None
 
@@ -966,15 +1278,18 @@ class C02(Prop):
     def _impl_big(self, case):
         return self._impl_scripted(self._expand_big(case))
 
-    def _pgmat(self, ntaxa, xo, chr_=None, pos=None, homo=None):
+    def _pgmat(self, ntaxa, xo, chr_=None, pos=None, homo=None, m=None, forder=False):
         dpgm = _mods()[5]
-        m = len(xo)
+        m = len(xo) if xo is not None else m
         geno = numpy.array(_geno(ntaxa, m, 0, homo), dtype="int8").reshape(2, ntaxa, m)
+        if forder:
+            geno = numpy.asfortranarray(geno)
         pg = dpgm.DensePhasedGenotypeMatrix(
             geno, taxa=numpy.array(["t%02d" % i for i in range(ntaxa)], dtype=object),
             taxa_grp=numpy.arange(ntaxa),
             vrnt_chrgrp=numpy.array(chr_ if chr_ is not None else [1] * m, dtype=int),
-            vrnt_phypos=numpy.arange(1, m + 1), vrnt_xoprob=numpy.array(xo, dtype=float))
+            vrnt_phypos=numpy.arange(1, m + 1),
+            vrnt_xoprob=numpy.array(xo, dtype=float) if xo is not None else None)
         pg.group_vrnt()
         return pg
 
@@ -1044,15 +1359,30 @@ class C02(Prop):
         return labs, ok
 
     def _run_proto(self, proto, gen, seed, ntaxa, xconfig, nmating, nprogeny, nself, xo, chr_=None, homo=None,
-                   ncall=1, xo2=None, edit_mode="assign"):
+                   ncall=1, xo2=None, edit_mode="assign", pipe=None, chain=None, forder=False):
         """-> ([progeny matrix per call], recorder, parents of each progeny row, M, N, [draw-matrix count per call])"""
-        protos = _mods()[6]
+        mutil, cmate, sgm, hal, kos, dpgm, protos = _mods()
         if gen == "Scripted":
             g = ScriptedGenerator(seed)              # `seed` carries the scripted draw matrices
             g.draws = g.handed
         else:
             g = (RecGenerator if gen == "Generator" else RecRandomState)(seed)
-        pg = self._pgmat(ntaxa, xo, chr_, homo=homo)
+        if pipe is not None:
+            # crossover probabilities are NOT handed over: the matrix gets them from a genetic map through
+            # interp_xoprob, exactly as a user of the library would
+            fn, chr_p, pos_p, via = pipe
+            pg = self._pgmat(ntaxa, None, chr_p, homo=homo, m=len(chr_p))
+            chr_a = numpy.array(chr_p, dtype=int)
+            phy = numpy.arange(1, len(chr_p) + 1)
+            gen_a = numpy.array([_f(v) for v in pos_p], dtype=float)
+            if via == "extended":
+                import pybrops.popgen.gmap.ExtendedGeneticMap as egm
+                gmap = egm.ExtendedGeneticMap(chr_a, phy, phy + 1, gen_a)
+            else:
+                gmap = sgm.StandardGeneticMap(chr_a, phy, gen_a)
+            pg.interp_xoprob(gmap, (hal.HaldaneMapFunction if fn == "haldane" else kos.KosambiMapFunction)())
+        else:
+            pg = self._pgmat(ntaxa, xo, chr_, homo=homo, forder=forder)
         xc = numpy.array(xconfig, dtype=int).reshape(len(xconfig), NPARENT[proto])
         nm = nmating if isinstance(nmating, int) else numpy.array(nmating, dtype=int)
         npg = nprogeny if isinstance(nprogeny, int) else numpy.array(nprogeny, dtype=int)
@@ -1061,12 +1391,21 @@ class C02(Prop):
         for c in range(ncall):
             before = len(g.draws)
             if c == 1 and xo2 is not None:
-                # the crossover probabilities of the SAME matrix object change between the two calls
+                # the crossover probabilities change between the two calls: in the SAME matrix object (edited in
+                # place or re-assigned), or because ANOTHER matrix object with the same marker count is mated
                 if edit_mode == "inplace":
                     pg.vrnt_xoprob[:] = numpy.array(xo2, dtype=float)
+                elif edit_mode == "newobj":
+                    pg = self._pgmat(ntaxa, xo2, chr_, homo=homo)
                 else:
                     pg.vrnt_xoprob = numpy.array(xo2, dtype=float)
-            outs.append(prot.mate(pg, xc, nm, npg, nself=nself))
+            if c == 1 and chain is not None:
+                # next breeding cycle: the progeny of the first call are the parents of the second
+                nxt = outs[0]
+                xc2 = numpy.array(chain, dtype=int).reshape(len(chain), NPARENT[proto])
+                outs.append(prot.mate(nxt, xc2, 1, 2, nself=nself))
+            else:
+                outs.append(prot.mate(pg, xc, nm, npg, nself=nself))
             ndraws.append(len(g.draws) - before)
         nm_a = numpy.repeat(nm, len(xc)) if isinstance(nm, int) else nm
         np_a = numpy.repeat(npg, len(xc)) if isinstance(npg, int) else npg
@@ -1085,13 +1424,19 @@ class C02(Prop):
                                                       case["rnd"] if case["gen"] == "Scripted" else case["seed"],
                                                       case["ntaxa"],
                                                       case["xconfig"], case["nmating"], case["nprogeny"],
-                                                      case["nself"], xo, homo=case.get("homo"), ncall=ncall,
+                                                      case["nself"], xo, chr_=case.get("chr"), homo=case.get("homo"),
+                                                      ncall=ncall,
                                                       xo2=[_f(v) for v in case["xoprob2"]] if "xoprob2" in case else None,
-                                                      edit_mode=case.get("edit_mode", "assign"))
+                                                      edit_mode=case.get("edit_mode", "assign"),
+                                                      chain=case.get("chain"), forder=bool(case.get("forder")))
         obs = {"calls": g.log, "M": M, "N": N, "shape": list(outs[0].mat.shape), "ndraws": ndraws,
                "mats": [canon.enc(o.mat) for o in outs],
                "draws": [self._draw_ints(d) for d in g.draws],
                "exact_grid": all(bool((numpy.asarray(d) * float(1 << 53) % 1.0 == 0).all()) for d in g.draws)}
+        if case.get("chain"):
+            # what the progeny matrix of the first cycle stores is what the second cycle must follow
+            xs = outs[0].vrnt_xoprob
+            obs["xo_stored"] = None if xs is None else canon.enc(numpy.asarray(xs, dtype=float))
         if case["nself"] == 0 and not case.get("homo"):
             labs, ok = self._labels(case["proto"], rows, outs[0].mat)
             obs["labels"] = [canon.enc(l) for l in labs]
@@ -1128,7 +1473,7 @@ class C02(Prop):
                 "sels": [s_.tolist() for s_, _ in captured], "dh": [canon.enc(out) for _, out in captured],
                 "shape": list(res.mat.shape)}
 
-    def _map_xoprob(self, fn, via, chr_, pos, perm=None, ungrouped=False, prime=False):
+    def _map_xoprob(self, fn, via, chr_, pos, perm=None, ungrouped=False, prime=False, slice_=None):
         mutil, cmate, sgm, hal, kos, dpgm, protos = _mods()
         chr_a = numpy.array(chr_, dtype=int)
         gen = numpy.array([_f(v) for v in pos], dtype=float)
@@ -1140,6 +1485,10 @@ class C02(Prop):
             gmap = egm.ExtendedGeneticMap(chr_a, phy, phy + 1, gen)
         else:
             gmap = sgm.StandardGeneticMap(chr_a, phy, gen)
+        if slice_ is not None:
+            ast, asp = slice_
+            d = (gmap.gdist1p(chr_a, phy, ast, asp) if via == "rprob1p" else gmap.gdist1g(chr_a, gen, ast, asp))
+            return mf.mapfn(d), gen
         if via in ("rprob1g", "extended"):
             if prime:
                 # an earlier query of the same objects with other positions of the same shape, then an in-place
@@ -1173,28 +1522,51 @@ class C02(Prop):
     def _impl_xoprob(self, case):
         try:
             xo, gp = self._map_xoprob(case["fn"], case["via"], case["chr"], case["pos"], case.get("perm"),
-                                      case.get("ungrouped", False), case.get("prime", False))
+                                      case.get("ungrouped", False), case.get("prime", False), case.get("slice"))
         except ValueError as e:
             if not case.get("ungrouped"):
                 raise
             return {"rejected": canon.exc_tag(e)}
         return {"xoprob": canon.enc(xo), "genpos": canon.enc(gp)}
 
+    @staticmethod
+    def _stat_map(case):
+        """the genetic map of a statistical case: explicit `chr` / `pos`, or a compact description of a dense
+        panel (`nchr` chromosomes of `clen` equally spaced markers, `step` Morgan apart)"""
+        mp = case["map"]
+        if "chr" in mp:
+            return mp["fn"], list(mp["chr"]), [Fraction(v) for v in mp["pos"]]
+        step = Fraction(mp["step"])
+        chr_ = [c + 1 for c in range(mp["nchr"]) for _ in range(mp["clen"])]
+        pos = [k * step for _ in range(mp["nchr"]) for k in range(mp["clen"])]
+        return mp["fn"], chr_, pos
+
+    def _stat_layout(self, case):
+        """-> (crossover probabilities as floats, chromosome labels or None)"""
+        if "map" in case:
+            fn, chr_, pos = self._stat_map(case)
+            xo_a, _ = self._map_xoprob(fn, "rprob1g", chr_, [canon.enc(v) for v in pos])
+            return [float(v) for v in xo_a], chr_
+        if "dense" in case:
+            # a dense panel given directly: 1/2 at every chromosome start, a small dyadic probability elsewhere
+            d = case["dense"]
+            p = _f(d["p"])
+            xo = [0.5 if k == 0 else p for _ in range(d["nchr"]) for k in range(d["clen"])]
+            return xo, [c + 1 for c in range(d["nchr"]) for _ in range(d["clen"])]
+        return [_f(v) for v in case["xoprob"]], None
+
     def _impl_stat(self, case):
         n = case["n"]
-        chr_ = None
-        if "map" in case:
-            mp = case["map"]
-            xo_a, _ = self._map_xoprob(mp["fn"], "rprob1g", mp["chr"], mp["pos"])
-            xo = [float(v) for v in xo_a]
-            chr_ = mp["chr"]
-        else:
-            xo = [_f(v) for v in case["xoprob"]]
+        if self._scope is not None:
+            n = min(n, 6000)        # self-test economy: a smaller sample can only lose kills, never create one
+        xo, chr_ = self._stat_layout(case)
         m = len(xo)
         tgt = case["target"]
         het = [True] * m          # markers at which the copy a cell came from can be read off
         L = []          # label matrices (n, m) of independent gametes
+        cross01 = None  # label matrices of copy 0 and copy 1 of the same plants (several generations)
         ncalls = 0
+        want_n = None
         if tgt == "embv":
             # gametes pooled over the replicates of from_gmod (each replicate must be a fresh sample)
             embv, dalgm = _embv_mods()
@@ -1225,22 +1597,37 @@ class C02(Prop):
             if not L:
                 return {"observable": False}
             ncalls = len(g.log)
+            want_n = 40 * max(n // 40, 1)       # every replicate is a fresh sample of nprogeny simulated meioses
         elif tgt.startswith("proto:"):
             proto = tgt[6:]
             np_ = NPARENT[proto]
             nself = case.get("nself", 0)
-            if case.get("gen2"):
-                # two-generation pedigree: n independent lines, one gamete observed per line
+            pipe = None
+            if case.get("pipeline"):
+                # the whole chain: map -> interp_xoprob on the matrix that is mated (nothing assigned by hand)
+                fn, chr_p, pos_p = self._stat_map(case)
+                pipe = (fn, chr_p, pos_p, case["pipeline"])
+            if case.get("gen2") or case.get("ngen"):
+                # pedigree of several generations: n independent lines, one plant observed per line; the copy of
+                # the founder / of the F1 carried by each cell is read from the allele code
                 outs, g, rows, M, N, _ = self._run_proto(proto, case["gen"], case["seed"], 4, [list(range(np_))],
-                                                         n, 1, nself, xo, chr_)
-                t, p = _decode(outs[0].mat[0])
-                if proto == "SelfCross":
-                    labs, ok = [p.astype(bool)], bool((t == 0).all())
-                else:
-                    labs, ok = [t == 1], bool(((t == 0) | (t == 1)).all())
+                                                         n, 1, nself, xo, chr_, pipe=pipe)
+                both = []
+                ok = True
+                for c in range(2):
+                    t, p = _decode(outs[0].mat[c])
+                    if proto == "SelfCross":
+                        both.append(p.astype(bool))
+                        ok = ok and bool((t == 0).all())
+                    else:
+                        both.append(t == 1)
+                        ok = ok and bool(((t == 0) | (t == 1)).all())
+                labs = [both[0]]
+                if case.get("ngen") and proto in ("SelfCross", "TwoWayCross"):
+                    cross01 = both        # the two copies of ONE plant (law of `crossProbN`)
             else:
                 outs, g, rows, M, N, _ = self._run_proto(proto, case["gen"], case["seed"], 4, [list(range(np_))],
-                                                         1, n, nself, xo, chr_)
+                                                         1, n, nself, xo, chr_, pipe=pipe)
                 if nself == 0:
                     labs, ok = self._labels(proto, rows, outs[0].mat)
                 else:
@@ -1277,19 +1664,48 @@ class C02(Prop):
             ncalls = len(g.log)
         Lall = numpy.concatenate(L, axis=0)
         nn = Lall.shape[0]
+        # statistics are taken at the watched markers only (all markers unless the case names a subset)
+        W = [j for j in case.get("watch", range(m)) if j < m]
         Li = Lall.astype(numpy.int64)
-        hidx = [j for j in range(m) if het[j]]
+        hidx = [j for j in W if het[j]]
         # crossover indicators are only visible between successive markers that are both observable
         T = Li.copy()
         T[:, 1:] = Li[:, 1:] ^ Li[:, :-1]
         tvis = [het[j] and (j == 0 or het[j - 1]) for j in range(m)]
-        diff = [[int((Li[:, i] != Li[:, j]).sum()) if i < j else 0 for j in range(m)] for i in range(m)]
-        both = (Li.T @ Li).tolist()
-        tboth = (T.T @ T).tolist()
-        return {"observable": True, "n": nn, "xoprob": canon.enc(xo), "phase1": Li.sum(0).tolist(), "diff": diff,
-                "both": both, "xo_count": T.sum(0).tolist(), "xo_both": tboth, "ncalls": ncalls, "het": het,
-                "tvis": tvis,
-                "distinct_rows": int(len(numpy.unique(Lall[: min(nn, 2000)][:, hidx], axis=0)))}
+        Lw = Li[:, W].astype(float)
+        Tw = T[:, W].astype(float)
+        ones = numpy.ones_like(Lw)
+        # (#gametes with different copies at the two markers) = a(1-b) + (1-a)b summed over the gametes
+        diff = (Lw.T @ (ones - Lw) + (ones - Lw).T @ Lw)
+        obs = {"observable": True, "n": nn, "xoprob": canon.enc(xo), "watch": W,
+               "phase1": [int(v) for v in Lw.sum(0)],
+               "diff": [[int(round(diff[a, b])) if a < b else 0 for b in range(len(W))] for a in range(len(W))],
+               "both": [[int(round(v)) for v in row] for row in (Lw.T @ Lw)],
+               "xo_count": [int(v) for v in Tw.sum(0)],
+               "xo_both": [[int(round(v)) for v in row] for row in (Tw.T @ Tw)],
+               "ncalls": ncalls, "het": [het[j] for j in W], "tvis": [tvis[j] for j in W],
+               "distinct_rows": int(len(numpy.unique(Lall[: min(nn, 2000)][:, hidx], axis=0))) if hidx else 0}
+        if want_n is not None:
+            obs["want_n"] = want_n
+        # independence of different gametes: identical rows at fixed lags (disjoint pairs (i, i + k), i in every
+        # second block of k rows), against P(two independent gametes carry the same mask) = prod (x^2 + (1 - x)^2)
+        if all(het) and not (case.get("gen2") or case.get("ngen") or case.get("nself")):
+            lag = {}
+            for k in LAGS:
+                if 4 * k > nn:
+                    break
+                i = numpy.arange(nn - k)
+                i = i[(i // k) % 2 == 0]
+                lag[str(k)] = [int((Lall[i] == Lall[i + k]).all(axis=1).sum()), int(len(i))]
+            obs["lagdup"] = lag
+        if cross01 is not None:
+            A = cross01[0][:, W].astype(float)
+            B = cross01[1][:, W].astype(float)
+            o = numpy.ones_like(A)
+            x01 = A.T @ (o - B) + (o - A).T @ B       # [a, b]: copy 0 at W[a] against copy 1 at W[b]
+            obs["cross01"] = [[int(round(v)) for v in row] for row in x01]
+            obs["cross10"] = [[int(round(v)) for v in row] for row in x01.T]
+        return obs
 
     # ------------------------------------------------------------------ model requests
     def requests(self, case, obs):
@@ -1337,11 +1753,15 @@ class C02(Prop):
             geno = _geno(case["ntaxa"], len(case["xoprob"]), 0, case.get("homo"))
             at = 0
             for c, nd in enumerate(obs["ndraws"]):
-                reqs.append({"op": "c02.proto_full", "proto": case["proto"], "geno": geno,
-                             "xconfig": case["xconfig"], "nmating": case["nmating"], "nprogeny": case["nprogeny"],
-                             "nself": case["nself"], "xoprob": case["xoprob2"] if (c >= 1 and "xoprob2" in case)
-                             else case["xoprob"], "draws": obs["draws"][at:at + nd],
-                             "dden": 1 << 53, "pc": c * obs["N"], "fc": c * len(case["xconfig"])})
+                req = {"op": "c02.proto_full", "proto": case["proto"], "geno": geno,
+                       "xconfig": case["xconfig"], "nmating": case["nmating"], "nprogeny": case["nprogeny"],
+                       "nself": case["nself"], "xoprob": case["xoprob2"] if (c >= 1 and "xoprob2" in case)
+                       else case["xoprob"], "draws": obs["draws"][at:at + nd],
+                       "dden": 1 << 53, "pc": c * obs["N"], "fc": c * len(case["xconfig"])}
+                if c == 1 and case.get("chain"):
+                    req.update({"geno": obs["mats"][0], "xconfig": case["chain"], "nmating": 1, "nprogeny": 2,
+                                "xoprob": obs["xo_stored"] if obs.get("xo_stored") is not None else case["xoprob"]})
+                reqs.append(req)
                 at += nd
             if "labels" in obs:
                 reqs += [{"op": "c02.spec_labels", "labels": l, "rnd": r, "dden": 1 << 53, "xoprob": case["xoprob"]}
@@ -1359,11 +1779,24 @@ class C02(Prop):
                          for sel, r, dh in zip(obs["sels"], obs["draws"], obs["dh"])]
             return reqs
         if k == "xoprob":
-            return [{"op": "c02.gdist", "chr": case["chr"], "pos": case["pos"]}]
+            chr_, pos = self._xo_window(case)
+            reqs = [{"op": "c02.gdist", "chr": chr_, "pos": pos}]
+            if "xoprob" in obs:
+                xs = [None if isinstance(canon.dec(x), str) else x for x in obs["xoprob"]]
+                if xs and "slice" in case and (case["slice"][0] or 0) > 0 and \
+                        case["chr"][case["slice"][0]] == case["chr"][case["slice"][0] - 1]:
+                    xs[0] = "1/2"      # a window that opens inside a chromosome: the property is silent on its first cell
+                reqs.append({"op": "c02.spec_starts", "chr": chr_, "xoprob": xs})
+            return reqs
         if k == "stat":
             if not obs.get("observable"):
                 return []
-            return [{"op": "c02.probs", "xoprob": obs["xoprob"]}]
+            req = {"op": "c02.probs", "xoprob": obs["xoprob"], "idx": obs["watch"]}
+            if case.get("ngen"):
+                req["ngen"] = case["ngen"]
+            if len(obs["xoprob"]) > 1000:
+                req["float"] = True      # thousands of markers: the model's closed forms evaluated in binary64
+            return [req]
         raise ValueError(k)
 
     # ------------------------------------------------------------------ judge
@@ -1411,6 +1844,13 @@ class C02(Prop):
             nontriv = nontriv or (any(any(r) for r in ph) and len({tuple(r) for r in ph}) >= 2
                                   and any(s.get("nseen", 0) > 0 for s in specs))
         calls_ok = obs["calls"] == want_calls
+        # the scripted draws determine the gametes only if the code asked for them in the modelled pattern (one
+        # matrix of shape (nsel, nvrnt) per meiosis, through uniform / random / random_sample); a rewrite that
+        # consumes randomness differently is broken correspondence here, and the statistical cases decide
+        pattern_ok = [c[-1] for c in obs["calls"]] == [c[-1] for c in want_calls] or \
+            bool(obs.get("served_in_blocks"))        # (or block by block along the gamete / marker axis)
+        if not pattern_ok:
+            spec, details = True, ["not decided by this case: the random draws were requested in another pattern"]
         if case["fn"] == "dh":
             # chromosome doubling: the two copies of a doubled haploid are the same gamete
             spec = spec and all(o[0] == o[1] for o in obs["outs"])
@@ -1431,10 +1871,33 @@ class C02(Prop):
             return isinstance(x, list) and all(empty(v) for v in x)
         return a == b or (empty(a) and empty(b))
 
+    @staticmethod
+    def _reused_draws(draws):
+        """two meioses that were handed the same random numbers (a genuine generator never repeats 4 doubles):
+        -> (k, l) of the first pair of draw matrices whose flattened values agree on a common prefix of >= 4"""
+        flat = [[v for row in d for v in row] for d in draws]
+        seen = {}
+        for k, f in enumerate(flat):
+            if len(f) < 4:
+                continue
+            key = tuple(f[:4])
+            if key in seen:
+                l = seen[key]
+                n = min(len(f), len(flat[l]))
+                if f[:n] == flat[l][:n]:
+                    return (l, k)
+            else:
+                seen[key] = k
+        return None
+
     def _judge_protocol(self, case, obs, ans):
         m = len(case["xoprob"])
         ncall = len(obs["ndraws"])
         want = [[0, 1, [rows, m]] for rows in (ans[0] or [])] * ncall
+        if case.get("chain") and ans[0] is not None:
+            M2 = len(case["chain"])
+            want = want[:len(ans[0])] + [[0, 1, [rows, m]] for rows in
+                                         _proto_rows(case["proto"], M2, 2 * M2, case["nself"])]
         calls_ok = ans[0] is not None and obs["calls"] == want
         full = ans[1:1 + ncall]
         labs = ans[1 + ncall:]
@@ -1464,17 +1927,27 @@ class C02(Prop):
         # (b) the copy switches of the last meiosis against its draws (no selfing, fully heterozygous founders)
         lab_spec = lab_ok = True
         if "labels" in obs:
-            lab_spec = obs["observable"] and all(a["ok"] for a in labs)
+            lab_spec = obs["observable"] and (all(a["ok"] for a in labs) or not calls_ok)
             lab_ok = all(a["phases"] == l for a, l in zip(labs, obs["labels"]))
         # the deterministic prediction is only defined when the calls are the modelled ones
         grid = obs.get("exact_grid", True)      # recorded doubles are k/2^53 (else the model cannot be fed exactly)
         spec = bool(lab_spec and (full_ok or not calls_ok or not grid))
+        # independent meioses need independent draws: with a genuine generator no two draw matrices may coincide
+        reused = None if case["gen"] == "Scripted" else self._reused_draws(obs["draws"])
+        if reused is not None:
+            spec = False
+            why = (f"draw matrices {reused[0]} and {reused[1]} of the protocol hold the same random numbers: two meioses "
+                   f"of the pedigree are not independent. ") + why
         last = obs["draws"][-1] if obs["draws"] else []
         xs = [Fraction(v) for v in canon.dec(case["xoprob2"] if (ncall > 1 and "xoprob2" in case) else case["xoprob"])]
         hit_rows = {tuple(int(Fraction(r, 1 << 53) < x) for r, x in zip(row, xs)) for row in last}
         nontriv = any(any(r) for r in hit_rows) and len(hit_rows) >= 2
         return {"corr": bool(calls_ok and full_ok and lab_ok and grid), "spec": spec, "nontrivial": nontriv,
                 "detail": f"protocol[{case['proto']} nself={case['nself']} calls={ncall}"
+                          f"{' edit=' + case['edit_mode'] if 'xoprob2' in case else ''}"
+                          f"{' second cycle on the progeny of the first' if case.get('chain') else ''}"
+                          f"{' F-ordered' if case.get('forder') else ''}"
+                          f"{' chr=' + str(case['chr']) if 'chr' in case else ''}"
                           f"{' partly-inbred founders' if case.get('homo') else ''}] calls_ok={calls_ok} "
                           f"progeny_equal_model={full_ok} {why} labels_equal_model={lab_ok} "
                           f"spec={[a['detail'] for a in labs if not a['ok']][:2]}"}
@@ -1492,7 +1965,12 @@ class C02(Prop):
         # one recorded draw matrix per captured dense_dh call: otherwise the adapter cannot pair gametes with draws
         # (broken correspondence only); chromosome doubling itself is always demanded
         paired = len(obs["dh"]) == len(obs["draws"])
-        spec = obs["doubled"] and (not paired or (len(specs) == len(obs["dh"]) and all(a["ok"] for a in specs)))
+        # (the recorded draws determine the gametes only when they were requested in the modelled pattern)
+        spec = obs["doubled"] and (not paired or not calls_ok or
+                                   (len(specs) == len(obs["dh"]) and all(a["ok"] for a in specs)))
+        reused = self._reused_draws(obs["draws"])
+        if reused is not None:
+            spec = False            # every replicate must be a fresh sample
         xs = [Fraction(v) for v in canon.dec(case["xoprob"])]
         hit_rows = {tuple(int(Fraction(r, 1 << 53) < x) for r, x in zip(row, xs)) for d in obs["draws"] for row in d}
         return {"corr": bool(calls_ok and full_ok and paired and obs["sels"] == want_sel), "spec": bool(spec),
@@ -1500,7 +1978,15 @@ class C02(Prop):
                 "detail": f"embv{' partly-inbred taxa' if case.get('homo') else ''} doubled={obs['doubled']} "
                           f"dh_matrices={len(obs['dh'])} draw_matrices={len(obs['draws'])} "
                           f"calls_ok={calls_ok} dh_equal_model={bool(full_ok)} "
+                          f"{'replicates ' + str(reused) + ' were handed the same random numbers ' if reused else ''}"
                           f"spec={[a['detail'] for a in specs if not a['ok']][:2]}"}
+
+    @staticmethod
+    def _xo_window(case):
+        if "slice" in case:
+            ast, asp = case["slice"]
+            return case["chr"][ast:asp], case["pos"][ast:asp]
+        return case["chr"], case["pos"]
 
     def _judge_xoprob(self, case, obs, ans):
         if case.get("ungrouped") or "rejected" in obs:
@@ -1509,10 +1995,11 @@ class C02(Prop):
                     "detail": f"xoprob[{case['via']}] matrix not grouped: implementation "
                               f"{'rejects (ValueError)' if 'rejected' in obs else 'accepts'}"}
         dist = ans[0]["dist"]
+        starts = ans[1]
         fn = _haldane if case["fn"] == "haldane" else _kosambi
         xo = obs["xoprob"]
-        pos = [Fraction(v) for v in case["pos"]]
-        chr_ = case["chr"]
+        chr_, pos_e = self._xo_window(case)
+        pos = [Fraction(v) for v in pos_e]
         exact = case["via"] in ("rprob1g", "extended")      # no interpolation in between: bit-for-bit distances
         rel, abs_ = (1e-12, 1e-15) if exact else (1e-9, 1e-11)
         # correspondence with the model's distances
@@ -1524,25 +2011,27 @@ class C02(Prop):
                 else:
                     corr = corr and not isinstance(canon.dec(x), str) and \
                         canon.close(canon.dec(x), Fraction(fn(float(canon.dec(d)))), rel=rel, abs_=abs_)
-        # Spec, from the positions alone
-        spec, why = len(xo) == len(chr_), "ok"
-        for j in range(min(len(xo), len(chr_))):
-            x = canon.dec(xo[j])
-            if j == 0 or chr_[j] != chr_[j - 1]:
-                if x != Fraction(1, 2):
-                    spec, why = False, f"chromosome start {j} has xoprob {xo[j]} instead of 1/2"
-                    break
-            else:
+        # Spec, from the positions alone: (a) exactly 1/2 at every chromosome start — decided in Lean (`specStarts`,
+        # theorems spec_starts_sound / spec_starts_iff); (b) the map function of the distance inside a chromosome
+        spec, why = bool(starts["ok"]), "ok"
+        if not spec:
+            why = (f"chromosome start(s) {starts['bad'][:4]} carry {[xo[j] for j in starts['bad'][:4]]} instead of 1/2"
+                   if starts["bad"] else f"{len(xo)} stored values for {len(chr_)} markers")
+        for j in range(1, min(len(xo), len(chr_))):
+            if not spec:
+                break
+            if chr_[j] == chr_[j - 1]:
+                x = canon.dec(xo[j])
                 w = fn(float(pos[j] - pos[j - 1]))
                 if isinstance(x, str) or not canon.close(x, Fraction(w), rel=rel, abs_=abs_):
                     spec, why = False, f"marker {j}: xoprob {xo[j]} != mapfn(distance) {w}"
-                    break
         if case["via"].startswith("interp"):
             gp_ok = canon.close_enc(obs["genpos"], case["pos"], rel=1e-12, abs_=1e-12)
             corr = corr and gp_ok
         return {"corr": bool(corr), "spec": bool(spec), "nontrivial": len(set(chr_)) >= 2,
                 "detail": f"xoprob[{case['fn']},{case['via']}{',shuffled' if 'perm' in case else ''}"
-                          f"{',primed' if case.get('prime') else ''}] impl={xo} "
+                          f"{',primed' if case.get('prime') else ''}"
+                          f"{',window=' + str(case['slice']) if 'slice' in case else ''}] impl={xo} "
                           f"model_dist={dist} {why}"}
 
     def _judge_stat(self, case, obs, ans):
@@ -1552,68 +2041,96 @@ class C02(Prop):
         pr = ans[0]
         n = obs["n"]
         xo = [float(canon.dec(v)) for v in obs["xoprob"]]
-        m = len(xo)
+        W = obs["watch"]                    # marker numbers; every matrix below is indexed by position in W
+        k = len(W)
         pair = [[float(canon.dec(v)) for v in r] for r in pr["pair"]]
         phase = [float(canon.dec(v)) for v in pr["phase"]]
         both = [[float(canon.dec(v)) for v in r] for r in pr["both"]]
         bad = []
         worst = 0.0
+        nstat = 0
 
-        def chk(name, k, p):
-            nonlocal worst
+        def chk(name, cnt, p):
+            nonlocal worst, nstat
+            nstat += 1
             b = _budget(n, p)
-            z = abs(k - n * p) / b
+            z = abs(cnt - n * p) / b
             worst = max(worst, z)
             if z > 1.0:
-                bad.append(f"{name}: {k}/{n}={k / n:.5f} expected {p:.5f} (|dev|={abs(k - n * p):.0f} > {b:.0f})")
-        het = obs.get("het") or [True] * m
-        tvis = obs.get("tvis") or [True] * m
-        if case.get("gen2"):
-            # law of a gamete two meioses away from the labelled individual (`two_generation_recombination_law`)
-            pair2 = [[float(canon.dec(v)) for v in r] for r in pr["pair2"]]
-            for j in range(m):
-                chk(f"segregation P(grandparental copy 1 at {j})", obs["phase1"][j], phase[j])
-            for i in range(m):
-                for j in range(i + 1, m):
-                    chk(f"two-generation recombination({i},{j})", obs["diff"][i][j], pair2[i][j])
-            het = tvis = [False] * m
-        for j in range(m):
-            if het[j]:
-                chk(f"segregation P(copy1 at {j})", obs["phase1"][j], phase[j])
-            if tvis[j]:
-                chk(f"crossover frequency in interval {j}", obs["xo_count"][j], xo[j])
-        for i in range(m):
-            for j in range(i + 1, m):
-                if het[i] and het[j]:
-                    chk(f"recombination({i},{j})", obs["diff"][i][j], pair[i][j])
-                    chk(f"joint copy1({i},{j})", obs["both"][i][j], both[i][j])
-                if tvis[i] and tvis[j]:
-                    chk(f"joint crossover({i},{j})", obs["xo_both"][i][j], xo[i] * xo[j])
+                bad.append(f"{name}: {cnt}/{n}={cnt / n:.5f} expected {p:.5f} (|dev|={abs(cnt - n * p):.0f} > {b:.0f})")
+        het = obs.get("het") or [True] * k
+        tvis = obs.get("tvis") or [True] * k
+        if case.get("gen2") or case.get("ngen"):
+            # law of a chromosome copy several meioses away from the labelled individual
+            # (`two_generation_recombination_law`, `n_generation_recombination_law`)
+            key, what = ("pairN", f"{case['ngen']}-generation") if case.get("ngen") else ("pair2", "two-generation")
+            pairg = [[float(canon.dec(v)) for v in r] for r in pr[key]]
+            for a in range(k):
+                chk(f"segregation P(founder copy 1 at {W[a]})", obs["phase1"][a], phase[a])
+            for a in range(k):
+                for b in range(a + 1, k):
+                    chk(f"{what} recombination({W[a]},{W[b]})", obs["diff"][a][b], pairg[a][b])
+            if "cross01" in obs:
+                crossg = [[float(canon.dec(v)) for v in r] for r in pr["crossN"]]
+                for a in range(k):
+                    for b in range(a + 1, k):
+                        chk(f"copy 0 at {W[a]} vs copy 1 at {W[b]} of one plant", obs["cross01"][a][b], crossg[a][b])
+                        chk(f"copy 1 at {W[a]} vs copy 0 at {W[b]} of one plant", obs["cross10"][a][b], crossg[a][b])
+            het = tvis = [False] * k
+        for a in range(k):
+            if het[a]:
+                chk(f"segregation P(copy1 at {W[a]})", obs["phase1"][a], phase[a])
+            if tvis[a]:
+                chk(f"crossover frequency in interval {W[a]}", obs["xo_count"][a], xo[W[a]])
+        for a in range(k):
+            for b in range(a + 1, k):
+                if het[a] and het[b]:
+                    chk(f"recombination({W[a]},{W[b]})", obs["diff"][a][b], pair[a][b])
+                    chk(f"joint copy1({W[a]},{W[b]})", obs["both"][a][b], both[a][b])
+                if tvis[a] and tvis[b]:
+                    chk(f"joint crossover({W[a]},{W[b]})", obs["xo_both"][a][b], xo[W[a]] * xo[W[b]])
+        if "lagdup" in obs:
+            p_same = float(canon.dec(pr["same"]))         # `sameProb` (theorem identical_gametes_law)
+            n_all = n
+            for lg, (cnt, npairs) in obs["lagdup"].items():
+                n = npairs                       # (chk reads the sample size from `n`)
+                chk(f"identical gametes {lg} rows apart", cnt, p_same)
+            n = n_all
+        if "want_n" in obs and n != obs["want_n"]:
+            bad.append(f"{n} gametes were simulated where {obs['want_n']} independent meioses were requested")
         # Haldane map: pairwise value must be the map function of the genetic distance; different
         # chromosomes: 1/2 and independent assortment
         hal_ok = True
         if "map" in case:
-            mp = case["map"]
-            pos = [float(Fraction(v)) for v in mp["pos"]]
-            for i in range(m):
-                for j in range(i + 1, m):
-                    if not (het[i] and het[j]):
+            fn, chr_, pos_f = self._stat_map(case)
+            pos = [float(v) for v in pos_f]
+            for a in range(k):
+                for b in range(a + 1, k):
+                    if not (het[a] and het[b]):
                         continue
-                    if mp["chr"][i] != mp["chr"][j]:
-                        chk(f"unlinked recombination({i},{j})", obs["diff"][i][j], 0.5)
-                        hal_ok = hal_ok and abs(pair[i][j] - 0.5) < 1e-12
-                    elif mp["fn"] == "haldane":
+                    i, j = W[a], W[b]
+                    if chr_[i] != chr_[j]:
+                        chk(f"unlinked recombination({i},{j})", obs["diff"][a][b], 0.5)
+                        hal_ok = hal_ok and abs(pair[a][b] - 0.5) < 1e-12
+                    elif fn == "haldane":
                         w = _haldane(pos[j] - pos[i])
-                        chk(f"haldane recombination({i},{j})", obs["diff"][i][j], w)
-                        hal_ok = hal_ok and abs(pair[i][j] - w) < 1e-12
+                        chk(f"haldane recombination({i},{j})", obs["diff"][a][b], w)
+                        hal_ok = hal_ok and abs(pair[a][b] - w) < 1e-12
         spec = not bad
         corr = bool(pr["enum_ok"]) and hal_ok and obs["distinct_rows"] >= 2
+        tag = ""
+        if case.get("ngen"):
+            tag = f" {case['ngen']}-generation law"
+        elif case.get("gen2"):
+            tag = " two-generation law"
         return {"corr": corr, "spec": spec, "nontrivial": True,
-                "detail": f"stat[{case['target']}{' nself=' + str(case['nself']) if case.get('nself') else ''}"
-                          f"{' two-generation law' if case.get('gen2') else ''}"
-                          f"{' partly-inbred' if case.get('homo') else ''},{case['gen']},seed={case['seed']}] n={n} statistics="
-                          f"{2 * m + 3 * m * (m - 1) // 2} worst |dev|/budget={worst:.3f} enum_ok={pr['enum_ok']} "
-                          f"haldane_model_ok={hal_ok} " + ("; ".join(bad[:4]) if bad else "all within budget")}
+                "detail": f"stat[{case['target']}{' nself=' + str(case['nself']) if case.get('nself') else ''}{tag}"
+                          f"{' dense panel' if ('dense' in case or 'nchr' in case.get('map', {})) else ''}"
+                          f"{' map->interp_xoprob->mate' if case.get('pipeline') else ''}"
+                          f"{' partly-inbred' if case.get('homo') else ''},{case['gen']},seed={case['seed']}] n={n} "
+                          f"markers={len(xo)} watched={k} statistics={nstat} worst |dev|/budget={worst:.3f} "
+                          f"enum_ok={pr['enum_ok']} haldane_model_ok={hal_ok} "
+                          + ("; ".join(bad[:4]) if bad else "all within budget")}
 
     # ------------------------------------------------------------------ findings / shrinking
     def signature(self, case, obs, verdict):
@@ -1696,7 +2213,7 @@ class C02(Prop):
                 del c["ncall"]
                 c.pop("xoprob2", None)
                 yield c
-            if "xoprob2" in case:
+            if "xoprob2" in case or "chain" in case:
                 return
             if case["nself"] > 0:
                 c = dict(case)
@@ -1868,6 +2385,143 @@ class C02(Prop):
                         geno[0, s, :] = gamete[i]                      # the parent's first copy is used as scratch
                 return gamete
             return f
+
+        def count_location(orig):
+            """fast path for dense panels (mean crossover probability below 2 %): number of crossovers ~ Poisson,
+            positions drawn in proportion to xoprob"""
+            def f(geno, sel, xoprob, rng):
+                xoprob = numpy.asarray(xoprob, dtype=float)
+                tot = float(xoprob.sum())
+                if len(xoprob) == 0 or not 0.0 < tot < 0.02 * len(xoprob):
+                    return orig(geno, sel, xoprob, rng)
+                gam = numpy.empty((len(sel), len(xoprob)), dtype=geno.dtype)
+                nxo = rng.poisson(tot, len(sel))
+                for i, s_ in enumerate(sel):
+                    phase, stix = 0, 0
+                    for spix in numpy.sort(rng.choice(len(xoprob), nxo[i], p=xoprob / tot)):
+                        gam[i, stix:spix] = geno[phase, s_, stix:spix]
+                        stix = spix
+                        phase = 1 - phase
+                    gam[i, stix:] = geno[phase, s_, stix:]
+                return gam
+            return f
+
+        def block_of_draws_recycled(orig, rows=512):
+            """more gametes than `rows`: ONE block of random numbers is drawn and tiled"""
+            def f(geno, sel, xoprob, rng):
+                if len(sel) <= rows:
+                    return orig(geno, sel, xoprob, rng)
+
+                class R:
+                    def uniform(self, lo, hi, shape):
+                        blk = rng.uniform(lo, hi, (rows, shape[1]))
+                        return numpy.concatenate([blk] * (shape[0] // rows + 1))[:shape[0]]
+                return orig(geno, sel, xoprob, R())
+            return f
+
+        def dh_replicates_share_one_sample(orig):
+            memo = {}
+
+            def f(geno, sel, xoprob, rng):
+                key = (id(geno), tuple(int(v) for v in sel))
+                if key not in memo:
+                    memo.clear()
+                    memo[key] = orig(geno, sel, xoprob, rng)
+                return memo[key]
+            return f
+
+        def interference(orig):
+            def f(geno, sel, xoprob, rng):
+                class R:                      # the same draws, a hit right after a hit is suppressed
+                    def uniform(self, lo, hi, shape):
+                        r = numpy.array(rng.uniform(lo, hi, shape), dtype=float)
+                        hit = r < numpy.asarray(xoprob, dtype=float)
+                        for i in range(hit.shape[0]):
+                            for j in range(1, hit.shape[1]):
+                                if hit[i, j] and hit[i, j - 1]:
+                                    hit[i, j] = False
+                                    r[i, j] = 1.0
+                        return r
+                return orig(geno, sel, xoprob, R())
+            return f
+
+        def kosambi_expm1(self, d):
+            t = numpy.expm1(4.0 * numpy.asarray(d, dtype=float))
+            with numpy.errstate(all="ignore"):
+                return 0.5 * t / (t + 2.0)
+
+        def haldane_first_order(orig):
+            def f(self, d):
+                d = numpy.asarray(d, dtype=float)
+                return numpy.where(d < 1e-4, d, orig(self, d))
+            return f
+
+        def gdist_window_whole_labels(orig):
+            def f(self, vrnt_chrgrp, vrnt_genpos, ast=None, asp=None):
+                if ast is None and asp is None:
+                    return orig(self, vrnt_chrgrp, vrnt_genpos)
+                # chromosome starts located on the WHOLE label array, then cut to the window
+                return orig(self, vrnt_chrgrp, vrnt_genpos)[ast:asp]
+            return f
+
+        def proto_half_at_starts(cls):
+            orig = cls.mate
+
+            def mate(self, pgmat, *a, **k):
+                keep = pgmat.vrnt_xoprob
+                xo = numpy.array(keep, dtype=float)
+                xo[pgmat.vrnt_chrgrp_stix] = 0.5            # "chromosomes assort independently"
+                pgmat._vrnt_xoprob = xo
+                try:
+                    out = orig(self, pgmat, *a, **k)
+                    out._vrnt_xoprob = keep
+                    return out
+                finally:
+                    pgmat._vrnt_xoprob = keep
+            return mate
+
+        def proto_memo_by_identity(cls):
+            orig = cls.mate
+
+            def mate(self, pgmat, *a, **k):
+                memo = getattr(self, "_xo_by_id", None)
+                if memo is None or memo[0] is not pgmat:
+                    self._xo_by_id = memo = (pgmat, pgmat.vrnt_xoprob.copy())
+                keep = pgmat.vrnt_xoprob
+                pgmat._vrnt_xoprob = memo[1]
+                try:
+                    out = orig(self, pgmat, *a, **k)
+                    out._vrnt_xoprob = keep
+                    return out
+                finally:
+                    pgmat._vrnt_xoprob = keep
+            return mate
+
+        def selfing_rewinds_generator(orig_mate):
+            """every selfing generation starts from the generator state saved before the first one"""
+            st = {}
+
+            def g(fgeno, mgeno, fsel, msel, xoprob, rng):
+                if fgeno is mgeno and fgeno.shape[1] == len(fsel) and numpy.array_equal(fsel, numpy.arange(len(fsel))):
+                    key = id(rng)
+                    if hasattr(rng, "bit_generator"):
+                        if key in st:
+                            rng.bit_generator.state = st[key]
+                        else:
+                            st[key] = rng.bit_generator.state
+                    elif hasattr(rng, "get_state"):
+                        if key in st:
+                            rng.set_state(st[key])
+                        else:
+                            st[key] = rng.get_state()
+                return orig_mate(fgeno, mgeno, fsel, msel, xoprob, rng)
+
+            @contextlib.contextmanager
+            def ctx(mod):
+                st.clear()
+                with patch(mod, "mat_mate", g):
+                    yield
+            return ctx
 
         def mate_aliasing(orig_mate):
             """selfing generations write the female gametes into the hybrid matrix before the male meiosis
@@ -2074,6 +2728,35 @@ class C02(Prop):
             ("FourWayDHCross_memoises_xoprob_of_first_matrix",
              lambda: patch(protos["FourWayDHCross"], "mate", proto_memo_xoprob(protos["FourWayDHCross"]))),
             ("embv_forces_one_half_at_first_marker", lambda: patch(embv_mod, "dense_dh", embv_dh_half_at_start)),
+        ]
+        for mod, nm in ((mutil, "mat_meiosis"), (cmate, "dense_meiosis")):
+            r3 += [
+                (nm + "_count_location_fast_path_for_dense_panels",
+                 lambda mod=mod, nm=nm: patch(mod, nm, count_location(getattr(mod, nm)))),
+                (nm + "_no_crossover_right_after_a_crossover",
+                 lambda mod=mod, nm=nm: patch(mod, nm, interference(getattr(mod, nm)))),
+                (nm + "_one_block_of_512_draw_rows_tiled",
+                 lambda mod=mod, nm=nm: patch(mod, nm, block_of_draws_recycled(getattr(mod, nm)))),
+            ]
+        r3.append(("embv_replicates_share_one_sample",
+                   lambda: patch(embv_mod, "dense_dh", dh_replicates_share_one_sample(embv_mod.dense_dh))))
+        for pn in ("ThreeWayDHCross", "TwoWayCross"):
+            r3.append((pn + "_forces_one_half_at_chromosome_starts",
+                       lambda pn=pn: patch(protos[pn], "mate", proto_half_at_starts(protos[pn]))))
+        for pn in ("SelfCross", "FourWayCross"):
+            r3.append((pn + "_memoises_xoprob_by_matrix_identity",
+                       lambda pn=pn: patch(protos[pn], "mate", proto_memo_by_identity(protos[pn]))))
+        for pn in ("TwoWayCross", "ThreeWayDHCross"):
+            r3.append((pn + "_selfing_rewinds_the_generator",
+                       lambda pn=pn: selfing_rewinds_generator(pmods[pn].mat_mate)(pmods[pn])))
+        r3 += [
+            ("kosambi_expm1_form_nan_at_infinite_distance", lambda: patch(kos.KosambiMapFunction, "mapfn", kosambi_expm1)),
+            ("haldane_first_order_below_1e-4",
+             lambda: patch(hal.HaldaneMapFunction, "mapfn", haldane_first_order(hal.HaldaneMapFunction.mapfn))),
+            ("gdist1g_window_cut_from_whole_array_result",
+             lambda: patch(sgm.StandardGeneticMap, "gdist1g", gdist_window_whole_labels(sgm.StandardGeneticMap.gdist1g))),
+            ("extended_gdist1g_window_cut_from_whole_array_result",
+             lambda: patch(egm.ExtendedGeneticMap, "gdist1g", gdist_window_whole_labels(egm.ExtendedGeneticMap.gdist1g))),
         ]
         r3 += [
             ("gdist1g_chromosome_start_only_where_label_increases",
